@@ -129,8 +129,11 @@ func (db *DB) DeleteChannels(chs []ChannelKey) (err error) {
 	// Do a pass first to remove all non-index channels
 	for _, ch := range chs {
 		udb, uok := db.mu.dbs.unary[ch]
+		// Virtual channels live in their own map: they are neither index channels nor
+		// unknown, so they are removed in this pass like DeleteChannel does.
+		_, vok := db.mu.dbs.virtual[ch]
 
-		if !uok || udb.Channel().IsIndex {
+		if (!uok && !vok) || udb.Channel().IsIndex {
 			if udb.Channel().IsIndex {
 				indexChannels = append(indexChannels, ch)
 			}
